@@ -452,7 +452,7 @@ func c06HighRes(c *Ctx) {
 	// (the cross-section stays small, so the whole lattice is a few million nodes)
 	cases := []hr{{0, 255, false}, {1, 256, false}, {2, 511, false}, {1, 300, false}, {2, 150, true}, {2, 1100, true}, {0, 1300, true}, {1, 1500, true}, {2, 2100, true}}
 	if !c.Quick {
-		cases = append(cases, hr{0, 2100, true}, hr{1, 2060, true}, hr{2, 4200, true}, hr{1, 255, false}, hr{2, 255, false}, hr{0, 510, false}, hr{0, 1023, false}, hr{1, 1019, false}, hr{0, 1000, false}, hr{2, 257, false}, hr{0, 200, true})
+		cases = append(cases, hr{0, 2100, true}, hr{1, 2060, true}, hr{1, 255, false}, hr{2, 255, false}, hr{0, 510, false}, hr{0, 1023, false}, hr{1, 1019, false}, hr{0, 1000, false}, hr{2, 257, false}, hr{0, 200, true})
 	}
 	c06Sparse(c)
 	parallelFor(len(cases), func(i int) {
